@@ -48,7 +48,8 @@ func Division(left, right value.Value) error {
 				lv.Value = math.MinInt64
 				lv.IsNegativeInf = true
 			} else {
-				lv.Value /= int64(rv.Value)
+				// Divide as float then truncate, truncated divisor may be zero (e.g. 0.5)
+				lv.Value = int64(float64(lv.Value) / rv.Value)
 			}
 		default:
 			return errors.WithStack(fmt.Errorf("invalid division INTEGER type, got %s", right.Type()))
@@ -96,10 +97,17 @@ func Division(left, right value.Value) error {
 		switch right.Type() {
 		case value.IntegerType: // RTIME /= INTEGER
 			rv := value.Unwrap[*value.Integer](right)
+			if rv.Value == 0 {
+				return errors.WithStack(fmt.Errorf("division by zero"))
+			}
 			lv.Value /= time.Duration(rv.Value)
 		case value.FloatType: // RTIME /= FLOAT
 			rv := value.Unwrap[*value.Float](right)
-			lv.Value /= time.Duration(rv.Value)
+			if rv.Value == 0 {
+				return errors.WithStack(fmt.Errorf("division by zero"))
+			}
+			// Divide as float then truncate, truncated divisor may be zero (e.g. 0.5)
+			lv.Value = time.Duration(float64(lv.Value) / rv.Value)
 		default:
 			return errors.WithStack(fmt.Errorf("invalid division RTIME type, got %s", right.Type()))
 		}
